@@ -2215,8 +2215,12 @@ class GattServer(GattLayer):
             self.__write_queues = {}
             self.att.execute_write_response()
         else:
-            # Unknown flag !
-            pass
+            # Unknown flag: the request must still be answered
+            self.error(
+                BleAttOpcode.EXECUTE_WRITE_REQUEST,
+                0,
+                BleAttErrorCode.INVALID_PDU
+            )
 
     @txlock
     def on_read_by_type_request(self, request: GattReadByTypeRequest):
